@@ -389,12 +389,15 @@ func (w *worker[T, JobType]) goRemoveIdleWorkers() {
 			// Calculate the target number of idle workers
 			targetIdleWorkers := w.numMinIdleWorkers()
 
+			// take one snapshot and measure that: the dispatcher may pop idle
+			// nodes at any time, so a separate Len() says nothing about it
+			nodes := w.pool.NodeSlice()
+
 			// if the number of idle workers is less than or equal to the target, continue
-			if w.pool.Len() <= targetIdleWorkers {
+			if len(nodes) <= targetIdleWorkers {
 				continue
 			}
 
-			nodes := w.pool.NodeSlice()
 			// If we have more nodes than our target, close the excess ones
 			for _, node := range nodes[targetIdleWorkers:] {
 				// Remove reports whether the node was still idle (in the list);
